@@ -62,13 +62,14 @@ def StepOKW (cfg : Cfg) (G : Block) (k : SkelT) (ev : EvT) : Prop :=
 
 /-- the hypotheses on the STATE inside a removal window of `w` (all of them C08's: its `DomW` and the success of the
     follower's database transactions, which `irun … = some x` contains):
-    * handler step: the block handled is on the node's chain (no stale notification) and its transaction succeeds;
+    * handler step: the block handled is on the node's chain (no stale notification); the transaction of the LAST
+      queued notification succeeds (a failing one changes nothing);
     * crash: Start succeeds;
     * removal step: the pending-side clause `PendOK` (for every chain the height table describes);
     * drain: the iterations have finished the removal (totality of the loop in the relaxed state is not proved). -/
 def guardRem (cfg : Cfg) (cr : Bool) (x : SysQ) (k : SkelT) (w : Wid) : EvT → Prop
   | .q .handle => (∀ b, x.queue.head? = some b → k.base.chain[b.height]? = some b) ∧
-      (∀ b, x.queue.head? = some b → ((opBlock (envAt cfg.st k.base.chain) cfg.n b).run none x.P x.V).ok = true)
+      (∀ b, x.queue = [b] → ((opBlock (envAt cfg.st k.base.chain) cfg.n b).run none x.P x.V).ok = true)
   | .q .crash => cr = true → (Model.Persist.crash (envAt cfg.st k.base.chain) cfg.n x.P).ok = true
   | .removeStep _ => PendGuard x.P (addrsOf k.base.ks w)
   | .removeDrain _ => removeDone x.P w = true
